@@ -1831,3 +1831,318 @@ Proof.
   rewrite !(merger_groupby agg n) by auto. f_equal.
   apply groupby_agg_perm; [exact HA|]. unfold allpx. apply permutation_concat. now apply Permutation_map.
 Qed.
+
+(* ================================================================== M. composition laws  agg (map agg Gs) = agg (concat Gs) *)
+
+(** the three integer aggregations of the model, as plain functions list Z -> Z
+    ([agg_col AMax vs] is by definition [fold_right Z.max (hd 0 vs) vs], [agg_col AMin] likewise) *)
+Definition lmax (vs : list Z) : Z := agg_col AMax vs.
+Definition lmin (vs : list Z) : Z := agg_col AMin vs.
+
+(** exact integer sum: composes without any side condition *)
+Lemma sum_compose : forall Gs : list (list Z), sumZ (map sumZ Gs) = sumZ (concat Gs).
+Proof. induction Gs as [|G t IH]; [reflexivity|]. cbn [map concat]. now rewrite sumZ_cons, sumZ_app, IH. Qed.
+Lemma sum_single v : sumZ [v] = v. Proof. rewrite sumZ_cons. change (sumZ []) with 0. lia. Qed.
+(** int64 machine sum (what pandas computes): composes without side condition as well *)
+Lemma wsum_compose : forall Gs : list (list Z), agg_col ASum (map (agg_col ASum) Gs) = agg_col ASum (concat Gs).
+Proof.
+  induction Gs as [|G t IH]; [reflexivity|]. cbn [map concat]. cbn [agg_col] in *. rewrite sumZ_cons, sumZ_app.
+  rewrite wrap64_add, <- wrap64_add_r, IH, wrap64_add_r. reflexivity.
+Qed.
+
+Section Extremum.
+(** a selection function f (max or min) w.r.t. a total order le *)
+Variables (f : Z -> Z -> Z) (le : Z -> Z -> Prop).
+Hypothesis le_refl : forall a, le a a.
+Hypothesis le_trans : forall a b c, le a b -> le b c -> le a c.
+Hypothesis le_antisym : forall a b, le a b -> le b a -> a = b.
+Hypothesis f_sel : forall a b, f a b = a \/ f a b = b.
+Hypothesis f_ub1 : forall a b, le a (f a b).
+Hypothesis f_ub2 : forall a b, le b (f a b).
+
+Definition ext (vs : list Z) : Z := fold_right f (hd 0 vs) vs.
+Definition IsExt (vs : list Z) (m : Z) : Prop := (vs = [] /\ m = 0) \/ (In m vs /\ forall x, In x vs -> le x m).
+
+Lemma fold_ext_facts d vs : let m := fold_right f d vs in
+  (m = d \/ In m vs) /\ le d m /\ forall x, In x vs -> le x m.
+Proof.
+  induction vs as [|v t (A & B & C)]; cbn [fold_right]; [repeat split; [now left|apply le_refl|intros ? []]|].
+  set (r := fold_right f d t) in *. repeat split.
+  - destruct (f_sel v r) as [E|E]; rewrite E; [right; now left|]. destruct A as [A|A]; [now left|right; now right].
+  - eapply le_trans; [exact B|apply f_ub2].
+  - intros x [<-|Hx]; [apply f_ub1|]. eapply le_trans; [now apply C|apply f_ub2].
+Qed.
+Lemma ext_spec vs : IsExt vs (ext vs).
+Proof.
+  unfold ext. destruct vs as [|v t]; [left; now split|]. right. cbn [hd].
+  destruct (fold_ext_facts v (v :: t)) as (A & B & C). split; [|exact C].
+  destruct A as [A|A]; [rewrite A; now left|exact A].
+Qed.
+Lemma isext_unique vs m m' : IsExt vs m -> IsExt vs m' -> m = m'.
+Proof.
+  intros [(E & ->)|(I1 & U1)] [(E' & ->)|(I2 & U2)]; subst; try contradiction; try reflexivity.
+  apply le_antisym; [now apply U2|now apply U1].
+Qed.
+Lemma ext_perm vs vs' : Permutation vs vs' -> ext vs = ext vs'.
+Proof.
+  intros HP. apply (isext_unique vs'); [|apply ext_spec].
+  destruct (ext_spec vs) as [(E & ->)|(I1 & U1)].
+  - subst. apply Permutation_nil in HP. subst. left; now split.
+  - right. split; [eapply Permutation_in; eauto|]. intros x Hx. apply U1. eapply Permutation_in; [symmetry; exact HP|exact Hx].
+Qed.
+Lemma ext_single v : ext [v] = v.
+Proof. unfold ext. cbn. destruct (f_sel v v) as [E|E]; exact E. Qed.
+(** composition over non-empty groups *)
+Lemma ext_compose : forall Gs : list (list Z), Forall (fun G => G <> []) Gs -> ext (map ext Gs) = ext (concat Gs).
+Proof.
+  intros Gs HN. apply (isext_unique (concat Gs)); [|apply ext_spec].
+  destruct (ext_spec (map ext Gs)) as [(E & ->)|(I1 & U1)].
+  - destruct Gs; [left; now split|discriminate].
+  - right. apply in_map_iff in I1. destruct I1 as (G & EG & HG). split.
+    + apply in_concat. exists G. split; [exact HG|]. rewrite <- EG.
+      rewrite Forall_forall in HN. destruct (ext_spec G) as [(E & _)|(I & _)]; [now apply HN in HG|exact I].
+    + intros x Hx. apply in_concat in Hx. destruct Hx as (G' & HG' & Hx).
+      eapply le_trans; [|apply U1; apply in_map; exact HG'].
+      destruct (ext_spec G') as [(E & _)|(_ & U)]; [subst; contradiction|now apply U].
+Qed.
+End Extremum.
+
+Lemma max_compose : forall Gs : list (list Z), Forall (fun G => G <> []) Gs -> lmax (map lmax Gs) = lmax (concat Gs).
+Proof. apply (ext_compose Z.max Z.le); intros; lia. Qed.
+Lemma min_compose : forall Gs : list (list Z), Forall (fun G => G <> []) Gs -> lmin (map lmin Gs) = lmin (concat Gs).
+Proof. apply (ext_compose Z.min (fun a b => b <= a)); intros; lia. Qed.
+Lemma max_perm vs vs' : Permutation vs vs' -> lmax vs = lmax vs'.
+Proof. apply (ext_perm Z.max Z.le); intros; lia. Qed.
+Lemma min_perm vs vs' : Permutation vs vs' -> lmin vs = lmin vs'.
+Proof. apply (ext_perm Z.min (fun a b => b <= a)); intros; lia. Qed.
+Lemma max_single v : lmax [v] = v. Proof. apply (ext_single Z.max); intros; lia. Qed.
+Lemma min_single v : lmin [v] = v. Proof. apply (ext_single Z.min); intros; lia. Qed.
+(** without the non-emptiness side condition the law is false for max/min (an empty group contributes
+    the default 0): the witness *)
+Lemma max_compose_unguarded_refuted : exists Gs, lmax (map lmax Gs) <> lmax (concat Gs).
+Proof. exists [[]; [-5]]. vm_compute. discriminate. Qed.
+Lemma min_compose_unguarded_refuted : exists Gs, lmin (map lmin Gs) <> lmin (concat Gs).
+Proof. exists [[]; [5]]. vm_compute. discriminate. Qed.
+
+(* ---- from the composition law to the two-level merge, associativity and chunking independence *)
+Section Compose.
+Context {V : Type}.
+Notation recd := (key * V)%type.
+Variable agg : list V -> V.
+Hypothesis agg_perm_inv : forall vs vs', Permutation vs vs' -> agg vs = agg vs'.
+Hypothesis agg_compose : forall Gs : list (list V), Forall (fun G => G <> []) Gs -> agg (map agg Gs) = agg (concat Gs).
+
+Lemma compose_decomp : forall xss : list (list V),
+  agg (concat (map (fun xs => match xs with [] => [] | _ => [agg xs] end) xss)) = agg (concat xss).
+Proof.
+  assert (E1 : forall xss : list (list V),
+            concat (map (fun xs => match xs with [] => [] | _ => [agg xs] end) xss)
+            = map agg (filter (fun xs : list V => match xs with [] => false | _ => true end) xss)).
+  { induction xss as [|[|x xs] t IH]; [reflexivity|exact IH|]. cbn [map concat filter app]. now rewrite IH. }
+  assert (E2 : forall xss : list (list V),
+            concat xss = concat (filter (fun xs : list V => match xs with [] => false | _ => true end) xss)).
+  { induction xss as [|[|x xs] t IH]; [reflexivity|exact IH|]. cbn [concat filter]. now rewrite IH. }
+  intros xss. rewrite E1, (E2 xss). apply agg_compose. apply Forall_forall. intros G HG. apply filter_In in HG.
+  destruct G; [destruct HG; discriminate|discriminate].
+Qed.
+
+Lemma compose_two_level (Gs : list (list recd)) :
+  groupby_agg agg (concat (map (groupby_agg agg) Gs)) = groupby_agg agg (concat Gs).
+Proof. apply groupby_agg_two_level. exact compose_decomp. Qed.
+Lemma compose_perm (l l' : list recd) : Permutation l l' -> groupby_agg agg l = groupby_agg agg l'.
+Proof. now apply groupby_agg_perm. Qed.
+
+(** C06 independence for any permutation-invariant aggregation obeying the composition law *)
+Theorem unordered_independent_gen n o o' vc vc' (chunks chunks' : list (list recd)) buf buf' edges edges' m m' :
+  (1 <= n)%nat -> 0 <= buf -> 0 <= buf' ->
+  Permutation (concat chunks) (concat chunks') ->
+  Forall (fun ch => (o_sort o = true \/ RowSorted ch) /\ Forall (fun p => 0 <= rowof p < Z.of_nat n) ch) chunks ->
+  Forall (fun ch => (o_sort o' = true \/ RowSorted ch) /\ Forall (fun p => 0 <= rowof p < Z.of_nat n) ch) chunks' ->
+  match edges with Some e => Admissible (length chunks) e | None => True end ->
+  match edges' with Some e => Admissible (length chunks') e | None => True end ->
+  unordered_g n o vc agg chunks buf edges = Ok m ->
+  unordered_g n o' vc' agg chunks' buf' edges' = Ok m' -> m = m'.
+Proof.
+  intros Hn Hb Hb' HP HC HC' HE HE' H H'.
+  rewrite (unordered_exact n o vc agg compose_perm compose_two_level chunks buf edges m Hn Hb HC HE H).
+  rewrite (unordered_exact n o' vc' agg compose_perm compose_two_level chunks' buf' edges' m' Hn Hb' HC' HE' H').
+  f_equal. now apply compose_perm.
+Qed.
+
+Hypothesis agg_single : forall v, agg [v] = v.
+
+Lemma groupby_single (p : recd) : groupby_agg agg [p] = [p].
+Proof. destruct p as [k v]. unfold groupby_agg, group. cbn. now rewrite agg_single. Qed.
+
+(** re-aggregating an already aggregated prefix changes nothing *)
+Lemma groupby_app_agg (X Y : list recd) : groupby_agg agg (groupby_agg agg X ++ Y) = groupby_agg agg (X ++ Y).
+Proof.
+  assert (E1 : forall Y : list recd, concat (map (groupby_agg agg) (map (fun p : recd => [p]) Y)) = Y).
+  { induction Y0 as [|p t IH]; [reflexivity|]. cbn [map concat]. now rewrite groupby_single, IH. }
+  assert (E2 : forall Y : list recd, concat (map (fun p : recd => [p]) Y) = Y).
+  { induction Y0 as [|p t IH]; [reflexivity|]. cbn [map concat app]. now rewrite IH. }
+  pose proof (compose_two_level (X :: map (fun p => [p]) Y)) as H. cbn [map concat] in H.
+  now rewrite E1, E2 in H.
+Qed.
+
+(** C07 associativity for any such aggregation: merge [merge xs; ys] = merge (xs ++ ys) *)
+Theorem merge_assoc_gen n (xs ys : list (mcool V)) b1 b2 b3 :
+  xs <> [] -> (1 <= n)%nat -> Forall (ValidIn n) xs -> Forall (ValidIn n) ys ->
+  0 <= b1 -> 0 <= b2 -> 0 <= b3 ->
+  exists m, merged_px agg xs b1 = Ok m /\
+    merged_px agg (mk_cool n m :: ys) b2 = merged_px agg (xs ++ ys) b3.
+Proof.
+  intros Hne Hn HX HY H1 H2 H3. exists (groupby_agg agg (allpx xs)).
+  split; [now apply (merger_groupby agg n)|].
+  rewrite !(merger_groupby agg n); auto.
+  - f_equal. change (mk_cool n (groupby_agg agg (allpx xs)) :: ys) with ([mk_cool n (groupby_agg agg (allpx xs))] ++ ys).
+    rewrite !allpx_app. unfold allpx at 1. cbn [map concat mc_px mk_cool]. rewrite app_nil_r. apply groupby_app_agg.
+  - destruct xs; [contradiction|discriminate].
+  - apply Forall_app. split; assumption.
+  - discriminate.
+  - constructor; [now apply valid_merged|exact HY].
+Qed.
+End Compose.
+
+(* ---- instances for max and min on integer values *)
+Corollary merge_assoc_max n (xs ys : list (mcool Z)) b1 b2 b3 :
+  xs <> [] -> (1 <= n)%nat -> Forall (ValidIn n) xs -> Forall (ValidIn n) ys -> 0 <= b1 -> 0 <= b2 -> 0 <= b3 ->
+  exists m, merged_px lmax xs b1 = Ok m /\ merged_px lmax (mk_cool n m :: ys) b2 = merged_px lmax (xs ++ ys) b3.
+Proof. apply (merge_assoc_gen lmax max_compose max_single). Qed.
+Corollary merge_assoc_min n (xs ys : list (mcool Z)) b1 b2 b3 :
+  xs <> [] -> (1 <= n)%nat -> Forall (ValidIn n) xs -> Forall (ValidIn n) ys -> 0 <= b1 -> 0 <= b2 -> 0 <= b3 ->
+  exists m, merged_px lmin xs b1 = Ok m /\ merged_px lmin (mk_cool n m :: ys) b2 = merged_px lmin (xs ++ ys) b3.
+Proof. apply (merge_assoc_gen lmin min_compose min_single). Qed.
+
+(* ================================================================== N. column-wise reading of multi-column merges; the recorded total *)
+
+Definition colproj (j : nat) (l : list (key * list Z)) : list pixel := map (fun p => (fst p, nth j (snd p) 0)) l.
+
+Section ValueMap.
+Context {A B : Type}.
+Variable f : A -> B.
+Definition vmap (l : list (key * A)) : list (key * B) := map (fun p => (fst p, f (snd p))) l.
+Definition gmap (g : list (key * list A)) : list (key * list B) := map (fun e => (fst e, map f (snd e))) g.
+
+Lemma gins_map k v g : gins k (f v) (gmap g) = gmap (gins k v g).
+Proof.
+  induction g as [|[k0 vs] t IH]; [reflexivity|]. cbn [gmap map gins fst snd].
+  destruct (kcmp k k0); cbn [map fst snd]; [now rewrite map_app| reflexivity|]. fold (gmap t). now rewrite IH.
+Qed.
+Lemma group_map l : group (vmap l) = gmap (group l).
+Proof.
+  unfold group. change (@nil (key * list B)) with (gmap []). generalize (@nil (key * list A)).
+  induction l as [|p t IH]; intros acc; [reflexivity|]. cbn [vmap map fold_left fst snd]. rewrite gins_map. apply IH.
+Qed.
+(** a value map that commutes with the aggregations commutes with the group-by *)
+Lemma groupby_agg_map (agg : list A -> A) (agg' : list B -> B) l :
+  (forall vs, agg' (map f vs) = f (agg vs)) -> groupby_agg agg' (vmap l) = vmap (groupby_agg agg l).
+Proof.
+  intro H. unfold groupby_agg. rewrite group_map. unfold gmap, vmap. rewrite !map_map. apply map_ext.
+  intros [k vs]. cbn [fst snd]. now rewrite H.
+Qed.
+End ValueMap.
+
+Lemma group_entry {V} (l : list (key * V)) k vs : In (k, vs) (group l) -> vs = vals l k /\ In k (map fst l).
+Proof.
+  intro Hin. destruct (group_canon l) as (S1 & K1 & L1). split.
+  - rewrite <- L1. clear L1 K1. revert S1 Hin. generalize (group l). induction l0 as [|[k0 vs0] t IH]; intros S1 Hin; [contradiction|].
+    pose proof (gsorted_head_notin _ _ _ S1) as N. cbn [glook]. destruct Hin as [E0|Hin].
+    + inversion E0; subst. rewrite keqb_refl, (glook_notin t k N), app_nil_r. reflexivity.
+    + assert (keqb k0 k = false) as Ek.
+      { apply keqb_neq. intros ->. apply N. apply in_map_iff. exists (k, vs). auto. }
+      rewrite Ek. cbn [app]. apply IH; [|exact Hin]. inversion S1; assumption.
+  - apply K1. apply in_map_iff. exists (k, vs). auto.
+Qed.
+(** two aggregation functions that agree on every pixel's values give the same table *)
+Lemma groupby_agg_ext {V} (agg agg' : list V -> V) (l : list (key * V)) :
+  (forall k, In k (map fst l) -> agg (vals l k) = agg' (vals l k)) -> groupby_agg agg l = groupby_agg agg' l.
+Proof.
+  intro H. unfold groupby_agg. apply map_ext_in. intros [k vs] Hin. cbn [fst snd].
+  destruct (group_entry l k vs Hin) as (-> & Hk). f_equal. now apply H.
+Qed.
+
+(** C07, multi-column merges: column j of the merged table, when it is summed and no per-pixel sum leaves
+    int64, is the canonical aggregate (Model/Pixels.v) of column j of all input records *)
+Theorem column_canon ops (l : list (key * list Z)) j :
+  nth_error ops j = Some ASum ->
+  (forall k, In k (map fst l) -> - 2 ^ 63 <= sumZ (vals (colproj j l) k) < 2 ^ 63) ->
+  colproj j (groupby_agg (agg_row ops) l) = aggregate (colproj j l) /\
+  Canon (colproj j l) (colproj j (groupby_agg (agg_row ops) l)) /\
+  total (colproj j (groupby_agg (agg_row ops) l)) = total (colproj j l).
+Proof.
+  intros Hop Hfit.
+  assert (E : colproj j (groupby_agg (agg_row ops) l) = aggregate (colproj j l)).
+  { unfold colproj. change (map (fun p : key * list Z => (fst p, nth j (snd p) 0)) ?x) with (vmap (fun r : list Z => nth j r 0) x).
+    rewrite <- (groupby_agg_map (fun r : list Z => nth j r 0) (agg_row ops) (agg_col ASum)).
+    - rewrite <- groupby_sum_aggregate. apply groupby_agg_ext. intros k Hk. apply agg_col_sum_exact. apply Hfit.
+      unfold vmap in Hk. rewrite map_map in Hk. cbn [fst] in Hk. exact Hk.
+    - intros vs. symmetry. now apply agg_row_nth. }
+  rewrite E. split; [reflexivity|]. split; [apply aggregate_canon|apply total_aggregate].
+Qed.
+
+Lemma sum_count_spec columns px i : col_pos (map (fun c => (c, 0)) columns) 0 = Some i ->
+  sum_count columns px = wrap64 (total (colproj i px)).
+Proof. intro H. unfold sum_count, total, colproj. rewrite H, map_map. reflexivity. Qed.
+
+(** the column-projected inputs merge_coolers hands to the merger *)
+Definition proj_inputs (inputs : list cooler) (columns : option (list Z)) : list (mcool (list Z)) :=
+  match all_some (map (fun ci => all_some (map (col_pos (c_cols ci)) (mc_columns columns))) inputs) with
+  | Some poss => map (fun cp => project (fst cp) (snd cp)) (combine inputs poss)
+  | None => []
+  end.
+
+Lemma merge_coolers_px inputs buf columns dtypes aggs c :
+  0 <= buf -> (1 <= c_nbins (hd c inputs))%nat ->
+  Forall (fun ci => ValidIn (c_nbins (hd ci inputs)) (as_mcool ci)) inputs ->
+  merge_coolers inputs buf columns dtypes aggs = Ok c ->
+  c_px c = groupby_agg (agg_row (mc_ops columns aggs)) (allpx (proj_inputs inputs columns)) /\
+  c_sum c = sum_count (mc_columns columns) (c_px c).
+Proof.
+  intros Hb Hn HV E.
+  apply merge_coolers_unfold in E. destruct E as (c0 & rest & poss & ob & m & -> & Ep & Hl & Em & E1 & E2 & E3 & E4).
+  cbn [hd] in *. unfold proj_inputs. rewrite Ep. set (inputs := c0 :: rest) in *.
+  set (projected := map (fun cp => project (fst cp) (snd cp)) (combine inputs poss)) in *.
+  assert (PV : Forall (ValidIn (c_nbins c0)) projected).
+  { subst projected. rewrite Forall_map. apply Forall_forall. intros [ci ps] Hin. cbn [fst snd].
+    apply project_valid. apply in_combine_l in Hin. rewrite Forall_forall in HV. apply (HV ci Hin). }
+  apply merge_g_exact in Em; auto. destruct Em as (_ & ->). cbn [mc_px mk_cool] in *. rewrite E4, E1. split; reflexivity.
+Qed.
+
+(** C07: "the recorded total is the sum of the input totals" -- guarded form.  With count among the merged
+    columns (position i), summed, no per-pixel sum leaving int64: the recorded total is the int64 wrap of the
+    exact sum of all input counts, hence EQUAL to it whenever that exact total fits int64 *)
+Theorem total_exact_within_int64 inputs buf columns dtypes aggs c i :
+  0 <= buf -> (1 <= c_nbins (hd c inputs))%nat ->
+  Forall (fun ci => ValidIn (c_nbins (hd ci inputs)) (as_mcool ci)) inputs ->
+  merge_coolers inputs buf columns dtypes aggs = Ok c ->
+  col_pos (map (fun c => (c, 0)) (mc_columns columns)) 0 = Some i ->
+  nth_error (mc_ops columns aggs) i = Some ASum ->
+  let all_counts := colproj i (allpx (proj_inputs inputs columns)) in
+  (forall k, In k (map fst all_counts) -> - 2 ^ 63 <= sumZ (vals all_counts k) < 2 ^ 63) ->
+  c_sum c = wrap64 (total all_counts) /\
+  (- 2 ^ 63 <= total all_counts < 2 ^ 63 -> c_sum c = total all_counts).
+Proof.
+  intros Hb Hn HV E Hi Hop ac Hfit. destruct (merge_coolers_px _ _ _ _ _ _ Hb Hn HV E) as (Epx & Esum).
+  rewrite Esum, (sum_count_spec _ _ i Hi), Epx.
+  destruct (column_canon (mc_ops columns aggs) (allpx (proj_inputs inputs columns)) i Hop) as (_ & _ & T).
+  { intros k Hk. apply Hfit. subst ac. unfold colproj. rewrite map_map. cbn [fst]. exact Hk. }
+  rewrite T. fold ac. split; [reflexivity|apply wrap64_id].
+Qed.
+
+Corollary unordered_independent_max n o o' vc vc' (chunks chunks' : list (list pixel)) buf buf' edges edges' m m' :
+  (1 <= n)%nat -> 0 <= buf -> 0 <= buf' -> Permutation (concat chunks) (concat chunks') ->
+  Forall (fun ch => (o_sort o = true \/ RowSorted ch) /\ Forall (fun p => 0 <= rowof p < Z.of_nat n) ch) chunks ->
+  Forall (fun ch => (o_sort o' = true \/ RowSorted ch) /\ Forall (fun p => 0 <= rowof p < Z.of_nat n) ch) chunks' ->
+  match edges with Some e => Admissible (length chunks) e | None => True end ->
+  match edges' with Some e => Admissible (length chunks') e | None => True end ->
+  unordered_g n o vc lmax chunks buf edges = Ok m -> unordered_g n o' vc' lmax chunks' buf' edges' = Ok m' -> m = m'.
+Proof. apply (unordered_independent_gen lmax max_perm max_compose). Qed.
+Corollary unordered_independent_min n o o' vc vc' (chunks chunks' : list (list pixel)) buf buf' edges edges' m m' :
+  (1 <= n)%nat -> 0 <= buf -> 0 <= buf' -> Permutation (concat chunks) (concat chunks') ->
+  Forall (fun ch => (o_sort o = true \/ RowSorted ch) /\ Forall (fun p => 0 <= rowof p < Z.of_nat n) ch) chunks ->
+  Forall (fun ch => (o_sort o' = true \/ RowSorted ch) /\ Forall (fun p => 0 <= rowof p < Z.of_nat n) ch) chunks' ->
+  match edges with Some e => Admissible (length chunks) e | None => True end ->
+  match edges' with Some e => Admissible (length chunks') e | None => True end ->
+  unordered_g n o vc lmin chunks buf edges = Ok m -> unordered_g n o' vc' lmin chunks' buf' edges' = Ok m' -> m = m'.
+Proof. apply (unordered_independent_gen lmin min_perm min_compose). Qed.
